@@ -18,7 +18,7 @@ import numpy as np
 
 from ..common import Case, close
 from .. import gfi, grammar, seam
-from ..grammar import Flip, MaskN, Repeat, Scan, Static, Switch, Vmap, component_of, kern, nested_first, one, ref_run, tupaddr, two, wrap, dimap_std, flipnorm, kwdists
+from ..grammar import Flip, MaskN, Repeat, Scan, Static, Switch, Vmap, component_of, kern, kern_chain, kern_indep, nested_first, one, ref_run, tupaddr, two, wrap, dimap_std, flipnorm, kwdists
 from ..harness import Prog, args_key, base_key, lookup, static_part
 from ..bfs import _val_eq
 
@@ -72,6 +72,7 @@ def programs(tier):
         dimap_std(two(f, f)),
         Vmap(wrap(Vmap(f, 2, 0)), 2, 0), Scan(kern(wrap(Scan(kern(f), 2))), 2), Vmap(wrap(Scan(kern(f), 2)), 2, 0),
         one(wrap(MaskN(f), 1)), Vmap(wrap(MaskN(two(f, f)), 1), 2, 0),
+        Scan(kern_chain(f), 3, xs=True), Scan(kern_indep(two(f, f)), 3, xs=True),
     ]
     if tier == "thorough":
         P += [Vmap(two(f, f), 3, 0), Repeat(nested_first(f), 3), Scan(kern(wrap(Vmap(f, 2, 0))), 3), wrap(dimap_std(two(f, f))), Vmap(wrap(dimap_std(f)), 2, 0)]
@@ -133,9 +134,61 @@ def _run(node, tier, seed, switch_idx=None):
                         if r is None or not bool(np.all(np.asarray(r[1]))) or not _val_eq(r[0], t[4]):
                             ctx.fail(comp, "get_subtrace", _cls(seq), "choices", dict(det, path=repr(t[0]), lookup=repr(rest), got=None if r is None else np.asarray(r[0]).tolist(), want=t[4]))
                             break
-                ctx.sample(dict(program=node.name, addresses=[repr(s) for s in seqs[:4]]))
+                        # the same oracle after an IndexRequest edit at every index of a top-level scan / vmap
+                if node.kind in ("scan", "vmap") and switch_idx is None and getattr(node, "n", 0) > 0 and p is tree.paths[0]:
+                    _after_index_edits(ctx, node, comp, args, asg, tr, seqs, key)
+        ctx.sample(dict(program=node.name, addresses=[repr(s) for s in seqs[:4]]))
 
     return run
+
+
+def _after_index_edits(ctx, node, comp, args, asg, tr, seqs, key):
+    from genjax import ChoiceMap, Diff, IndexRequest, Update
+    from ..space import alt_values
+    from ..harness import make_chm, to_jax_args
+
+    ret, R = ref_run(node, args, asg)
+    for i in range(node.n):
+        terms_i = [t for t in R.terms if t[0][0] == i]
+        if not terms_i:
+            continue
+        t = terms_i[0]
+        av = alt_values(t)
+        if not av:
+            continue
+        req = IndexRequest(jnp.asarray(i, dtype=jnp.int32), Update(make_chm({t[0][1:]: av[0]})))
+        try:
+            tr2, w, rd, bwd = req.edit(key, tr, Diff.no_change(to_jax_args(args)))
+        except (AssertionError, NotImplementedError):
+            ctx.note("index_edit_outside_domain")
+            continue
+        asg2 = dict(asg)
+        asg2[t[0]] = av[0]
+        try:
+            ret2, R2 = ref_run(node, args, asg2)
+        except grammar.Missing:
+            continue
+        for seq in seqs:
+            fp = flat(seq)
+            terms = [x for x in R2.terms if static_part(x[0])[: len(fp)] == fp]
+            ctx.ev((node.name, args_key(args), gfi.asg_key(asg2), repr(seq), "after_index_edit", i), nontrivial=True)
+            try:
+                sub = tr2.get_subtrace(*seq)
+                score = np.asarray(sub.get_score(), dtype=np.float64)
+            except Exception as e:
+                ctx.fail(comp, "get_subtrace", _cls(seq) + ":after_index_edit", f"exception:{type(e).__name__}", dict(program=node.name, index=i, msg=str(e)[:200]))
+                continue
+            total = sum(x[1] for x in terms)
+            if not close(float(score.sum()), total):
+                ctx.fail(comp, "get_subtrace", _cls(seq) + ":after_index_edit", "score", dict(program=node.name, index=i, impl=score.tolist(), ref=total))
+        # the parent's score is the sum of its sub-executions' contributions
+        top = [seq for seq in seqs if len(seq) == 1]
+        try:
+            parts = sum(float(np.asarray(tr2.get_subtrace(*seq).get_score()).sum()) for seq in top)
+            if top and not close(parts, float(np.asarray(tr2.get_score()))):
+                ctx.fail(comp, "get_subtrace", "after_index_edit", "subtrace_scores_do_not_sum_to_parent_score", dict(program=node.name, index=i, parts=parts, parent=float(np.asarray(tr2.get_score()))))
+        except Exception:
+            pass
 
 
 def _cls(seq):
